@@ -30,7 +30,7 @@ static Fields gen(Tape &t) {
     case OP_REMOVEBASE: { GenUri S, B; int k; g_source_base(t, &S, &B, &k); f.set("text", S.text()); f.set("base", B.text()); f.seti("mode", t.below(2)); break; }
     case OP_NORMALIZE: f.set("text", g_uri(t)); f.seti("mask", t.coin() ? 63 : t.below(64)); f.seti("owned", t.below(2)); break;
     case OP_MAKEOWNER: f.set("text", g_uri(t)); break;
-    case OP_DISSECT: f.set("text", g_querytext(t)); f.seti("p2s", t.below(2)); f.seti("bc", t.below(4)); break;
+    case OP_DISSECT: f.set("text", g_querytext(t)); f.seti("p2s", t.below(2)); f.seti("bc", t.below(4)); f.seti("icnull", t.below(2)); break;
     default: { int n = t.range(1, 4); f.seti("n", n); for (int i = 0; i < n; i++) { f.set("k." + std::to_string(i), t.coin() ? "key" : "a b"); if (t.coin()) f.set("v." + std::to_string(i), t.coin() ? "v\n" : ""); } }
   }
   f.seti("maskplans", t.below(1u << 16));
@@ -97,7 +97,7 @@ template <class A> static Run<A> run_once(const Fields &f, const Plan &plan) {
     typename A::QL *ql = nullptr;
     int cnt = -1;
     arm();
-    r.rc = A::DissectQueryMallocExMm(&ql, &cnt, buf.get(), buf.get() + n, f.geti("p2s") != 0, (UriBreakConversion)f.geti("bc"), M);
+    r.rc = A::DissectQueryMallocExMm(&ql, f.geti("icnull") ? nullptr : &cnt, buf.get(), buf.get() + n, f.geti("p2s") != 0, (UriBreakConversion)f.geti("bc"), M);
     disarm();
     if (r.rc == 0) {
       for (auto *w = ql; w; w = w->next) { size_t l = 0; while (w->key[l]) l++; r.result += narrow<Ch>(w->key, w->key + l) + (w->value ? "=" : "") + "&"; }
